@@ -88,6 +88,7 @@ package headers
 //@ props C16 C04 C03
 //@ func ParseHeaderDirective
 //@   nopanic
+//@   pure
 //@   requires forall k key :: in(header, k) ==> len(header[k]) > 0
 //@   ensures result != nil
 //@   ensures [C04] in(header, "Cache-Control") <==> result.CacheControl.value.some
